@@ -102,6 +102,20 @@ theorem accepted_history (resolve : List String → Nat) (types : Nat → Option
   · intro k
     exact testBit_applyWrites p.base.internal _ init k hinit
 
+/-- **read-back after a history, declaration level** (C02–C05, C08, C12): after any sequence of writes through the accessors
+    of an accepted declaration, the getter of the field written last returns the value written – in both profiles, whatever
+    the earlier writes (to this field, to overlapping fields, to other elements) left behind. -/
+theorem accepted_history_readback (resolve : List String → Nat) (types : Nat → Option CustomInfo) (d : DeclSyn) (p : Program)
+    (h : expand resolve types d = .ok p) (Γ : CustomEnv) (chk : Bool) (steps : List Step) (last : Step) (init : Nat)
+    (hinit : init < 2 ^ p.base.internal) (hsteps : ∀ st ∈ steps ++ [last], LegalStep p Γ st) :
+    ∃ t, Runs Γ chk p.base init (steps ++ [last]) t ∧
+      ∃ e, getterBody p.base last.fd = some e ∧
+        eval Γ chk { raw := .int p.base.W t, index := .int .usize last.i } e = getterResult Γ last.fd last.v := by
+  obtain ⟨hB, _⟩ := C09.expand_fields_ok resolve types d p h
+  have hok : ∀ st ∈ steps ++ [last], st.Ok Γ p.base := fun st hst => (hsteps st hst).ok h
+  have hrun := runs_exists Γ chk p.base hB (steps ++ [last]) init hinit hok
+  exact ⟨_, hrun, C12.readback_after_history Γ chk p.base hB steps last init _ hinit hok hrun⟩
+
 /-- the final register of a history does not depend on the build profile -/
 theorem accepted_history_profile_independent (resolve : List String → Nat) (types : Nat → Option CustomInfo) (d : DeclSyn)
     (p : Program) (h : expand resolve types d = .ok p) (Γ : CustomEnv) (steps : List Step) (init t₁ t₂ : Nat)
